@@ -29,7 +29,7 @@ var sentinelCodes = map[string]string{
 }
 
 func c20(p *core.Prog, r *core.Report) {
-	r.Explain = "Decides: (R1) SendSystemError builds the error frame from GetSystemErrorCode/GetSystemErrorMessage of the given error and the given id/span, and returns the construction error; (R2) no peer- or handler-supplied string is reinterpreted on the caller side: the error built from a received error/cancel frame takes code and message from the decoded fields, and no printf-style wrapper in the library is called with a non-constant format and no arguments; (R3) local conditions map to fixed codes: GetContextError maps DeadlineExceeded to the timeout error and Canceled to the cancelled error, the sentinel errors carry their documented codes (constant propagation through NewSystemError), connection loss is reported as a network error unless a system error says otherwise; (R4) outside relays a protocol-error frame reaches connectionError, and relay connections route error frames to the relayer; (R5) the application-error flag is written from the response's flag and read back from the same byte. (R6) A queued error frame is received before a later connection error, and the declined frame of a refused call is sent before the connection can close (shared with C04/C07). Connection loss maps to Network unless a received system error says otherwise; each relay failure reason carries its documented code (reason -> code table). No raw context error is returned to callers (census); the code a wrapped system error really carries is resolved through wrappers and closures. The error code points equal the specification's; a raw context error is neither returned nor stored as a sticky error; every protocol-error frame closes the connection whatever its id; SendSystemError queues the frame in every state but closed."
+	r.Explain = "Decides: (R1) SendSystemError builds the error frame from GetSystemErrorCode/GetSystemErrorMessage of the given error and the given id/span, and returns the construction error; (R2) no peer- or handler-supplied string is reinterpreted on the caller side: the error built from a received error/cancel frame takes code and message from the decoded fields, and no printf-style wrapper in the library is called with a non-constant format and no arguments; (R3) local conditions map to fixed codes: GetContextError maps DeadlineExceeded to the timeout error and Canceled to the cancelled error, the sentinel errors carry their documented codes (constant propagation through NewSystemError), connection loss is reported as a network error unless a system error says otherwise; (R4) outside relays a protocol-error frame reaches connectionError, and relay connections route error frames to the relayer; (R5) the application-error flag is written from the response's flag and read back from the same byte. (R6) A queued error frame is received before a later connection error, and the declined frame of a refused call is sent before the connection can close (shared with C04/C07). Connection loss maps to Network unless a received system error says otherwise; each relay failure reason carries its documented code (reason -> code table). No raw context error is returned to callers (census); the code a wrapped system error really carries is resolved through wrappers and closures. The error code points equal the specification's; a raw context error is neither returned nor stored as a sticky error; every protocol-error frame closes the connection whatever its id; SendSystemError queues the frame in every state but closed. The application-error flag is accepted only up to the pre-arg2 writer state; after errUnknownID every path of Relayer.Relay offers the frame to the connection's own outbound exchanges, whatever its type."
 	r.NotDecided = "end-to-end delivery of every code x message size (the layout is C06's, delivery is C04/C08's); codes of relay-originated errors beyond the named sentinels."
 	r.Rule("C20-R1", "E6 provenance", 4, "error frame carries the error's code and message")
 	r.Rule("C20-R2", "E6 census", 4, "no received string used as a format; conversion preserves code and message")
